@@ -1,14 +1,13 @@
 import Rare.Model.Expr.Build
+import Rare.Model.Expr.Funcs.Float
 /-!
 `funcsArithmatic.go`, `funcsCommon.go` (bucket, bucketrange, clamp, expbucket), `funcsType.go`
 and the float comparators of `funcsComparators.go`.
 
-Integer helpers are modelled exactly (wrapped int64).  Float-valued helpers are modelled only
-as far as `strconv.ParseFloat` can be decided without IEEE arithmetic: a *plain decimal*
-(`[+-]digits[.digits]`) with at most 15 significant digits is an exact rational and two such
-numbers compare as floats exactly as they compare as rationals (15-digit decimals round-trip
-through float64, so rounding is strictly monotone on them); a string that certainly is not a
-float yields the `<BAD-TYPE>` marker; everything else answers `unmodelled`.
+Integer helpers are modelled exactly (wrapped int64) in this file.  The float-valued helpers
+(`sumf … divf`, `ceil floor sqrt round`, `lt gt lte gte`, `isnum`, `hf`, `percent`, the unit scalers)
+live in `Funcs/Float.lean` on top of the software binary64 model `Rare/Base/F64.lean`; their
+table is appended to this family's `table` (so `Std.lean` and the per-family proofs keep their shape).
 -/
 namespace Rare.Expr.Funcs.Arith
 open Rare.Expr
@@ -133,230 +132,18 @@ def kfExpBucket : Builder := fun args =>
     | some val => pure (itoa (expBucketVal val)))
   | _ => errArgCount
 
-/-! ### floats: what can be said without IEEE arithmetic -/
+/-- `maxPrecision` of `stdlib/util.go` (the cap used by the `round` / `percent` / unit-scaling models
+    of `Funcs/Float.lean`). -/
+def maxPrecision : Int := Float.maxPrecision
 
-/-- `mant / 10^scale`, negated when `neg`. -/
-structure Dec where
-  neg : Bool
-  mant : Nat
-  scale : Nat
-  deriving Repr, DecidableEq
-
-inductive FClass where
-  | exact (d : Dec)     -- plain decimal, ≤ 15 significant digits: the float *is* this rational as far as `<` goes
-  | valid               -- certainly accepted by ParseFloat, value not modelled
-  | invalid             -- certainly rejected by ParseFloat
-  | unknown             -- exponent / hex / inf / nan / underscore spellings …
-  deriving Repr, DecidableEq
-
-def isFloatAlphabet (b : UInt8) : Bool :=
-  isDigitB b || (97 ≤ b && b ≤ 102) || (65 ≤ b && b ≤ 70) ||   -- hex digits
-  b == 120 || b == 88 || b == 112 || b == 80 || b == 95 || b == 46 || b == 43 || b == 45
-
-def stripLeadingZeros : Bytes → Bytes
-  | 48 :: r => stripLeadingZeros r
-  | r => r
-
-/-- Classify the argument of `strconv.ParseFloat(s, 64)`. -/
-def classifyFloat (s : Bytes) : FClass :=
-  let (neg, body) := match s with
-    | 43 :: r => (false, r)
-    | 45 :: r => (true, r)
-    | r => (false, r)
-  match body with
-  | [] => .invalid
-  | c :: _ =>
-    if !(isDigitB c || c == 46) then
-      -- "inf", "infinity", "nan" (any case) are the only non-numeric spellings
-      if c == 105 || c == 73 || c == 110 || c == 78 then .unknown else .invalid
-    else
-      let ip := body.takeWhile isDigitB
-      let rest := body.dropWhile isDigitB
-      let (fp, tail, hasDot) := match rest with
-        | 46 :: r => (r.takeWhile isDigitB, r.dropWhile isDigitB, true)
-        | r => ([], r, false)
-      let _ := hasDot
-      if tail.isEmpty then
-        if ip.isEmpty && fp.isEmpty then .invalid            -- "." alone
-        else if body.length > 300 then .unknown              -- may overflow to ±Inf (range error)
-        else
-          let digits := ip ++ fp
-          let sig := (stripLeadingZeros digits).length
-          if sig ≤ 15 && body.length ≤ 40 then .exact ⟨neg, digitsVal digits 0, fp.length⟩
-          else .valid
-      else if body.all isFloatAlphabet then .unknown
-      else .invalid
-
-/-- `a < b` on decimals by cross multiplication. -/
-def Dec.toScaled (d : Dec) (scale : Nat) : Int :=
-  let m : Int := d.mant * 10 ^ (scale - d.scale)
-  if d.neg then -m else m
-
-def Dec.lt (a b : Dec) : Bool :=
-  let s := max a.scale b.scale
-  decide (a.toScaled s < b.toScaled s)
-
-def Dec.le (a b : Dec) : Bool :=
-  let s := max a.scale b.scale
-  decide (a.toScaled s ≤ b.toScaled s)
-
-def unmodelledStage (why : String) : Stage := .panic ("unmodelled:" ++ why)
-
-/-- `evalTypedStage(stage, typedParserFloat)` on classes. `none` = static and unparsable. -/
-def evalFloatStage (st : Stage) : Except String (Option (Comp FClass)) :=
-  match st.probe with
-  | .error m => .error m
-  | .ok (v, true) =>
-    match classifyFloat v with
-    | .invalid => .ok none
-    | .unknown => .error "unmodelled:float"
-    | c => .ok (some (.ret c))
-  | .ok (_, false) => .ok (some (do let v ← st; pure (classifyFloat v)))
-
-def mapFloatArgs : List Stage → Except String (Option (List (Comp FClass)))
-  | [] => .ok (some [])
-  | a :: rest =>
-    match evalFloatStage a with
-    | .error m => .error m
-    | .ok none => .ok none
-    | .ok (some t) =>
-      match mapFloatArgs rest with
-      | .error m => .error m
-      | .ok none => .ok none
-      | .ok (some ts) => .ok (some (t :: ts))
-
-/-- `arithmaticEqualityHelper` -/
-def cmpHelper (test : Dec → Dec → Bool) : Builder := fun args =>
-  match args with
-  | [a0, a1] =>
-    match evalFloatStage a0 with
-    | .error m => .error m
-    | .ok none => errNum
-    | .ok (some l) =>
-      match evalFloatStage a1 with
-      | .error m => .error m
-      | .ok none => errNum
-      | .ok (some r) => ok (do
-        let lc ← l
-        match lc with
-        | .invalid => pure ErrorNum
-        | .unknown => unmodelledStage "float"
-        | _ =>
-          let rc ← r
-          match lc, rc with
-          | _, .invalid => pure ErrorNum
-          | .exact x, .exact y => pure (truthyStr (test x y))
-          | _, _ => unmodelledStage "float")
-  | _ => errArgCount
-
-def kfIsNum : Builder := fun args =>
-  match args with
-  | [a] => ok (do
-    let v ← a
-    match classifyFloat v with
-    | .invalid => pure FalsyVal
-    | .unknown => unmodelledStage "float"
-    | _ => pure TruthyVal)
-  | _ => errArgCount
-
-/-- Run-time loop of `arithmaticHelperf`: only the `<BAD-TYPE>` outcome is modelled. -/
-def floatRun : List (Comp FClass) → Stage
-  | [] => unmodelledStage "float"
-  | t :: rest => do
-    let c ← t
-    match c with
-    | .invalid => pure ErrorNum
-    | .unknown => unmodelledStage "float"
-    | _ => floatRun rest
-
-def floatHelper : Builder := fun args =>
-  if args.length < 2 then errArgCount
-  else match mapFloatArgs args with
-    | .error m => .error m
-    | .ok none => errNum
-    | .ok (some typed) => ok (floatRun typed)
-
-/-- `unaryArithmaticHelperf` / `…fi`, `kfHumanizeFloat`: the argument is parsed at run time. -/
-def unaryFloat : Builder := fun args =>
-  match args with
-  | [a] => ok (do
-    let v ← a
-    match classifyFloat v with
-    | .invalid => pure ErrorNum
-    | _ => unmodelledStage "float")
-  | _ => errArgCount
-
-/-- `maxPrecision` of `stdlib/util.go`: larger constant precisions are a compile error (`<VALUE>`). -/
-def maxPrecision : Int := 1024
-
-def kfRound : Builder := fun args =>
-  if args.length < 1 || args.length > 2 then errArgCount
-  else match evalArgInt args 1 0 with
-    | .error m => .error m
-    | .ok none => errConst
-    | .ok (some precision) =>
-      if precision > maxPrecision then errValue else
-      match args with
-      | a :: _ => ok (do
-        let v ← a
-        match classifyFloat v with
-        | .invalid => pure ErrorNum
-        | _ => unmodelledStage "float")
-      | [] => errArgCount
-
-/-- Run-time check of one float operand: continue only when it is certainly a number. -/
-def needFloat (c : Comp FClass) (k : Stage) : Stage := do
-  let x ← c
-  match x with
-  | .invalid => pure ErrorNum
-  | .unknown => unmodelledStage "float"
-  | _ => k
-
-/-- `{percent val [decimals=1] [[min] max]}` -/
-def kfPercent : Builder := fun args =>
-  if args.length < 1 || args.length > 4 then errArgCount
-  else match evalArgInt args 1 1 with
-    | .error m => .error m
-    | .ok none => errConst
-    | .ok (some decimals) =>
-      if decimals > maxPrecision then errValue else
-      let lit : Comp FClass := .ret .valid
-      let mm : Except String (Option (Comp FClass) × Option (Comp FClass)) :=
-        match args with
-        | [_, _, mx] =>
-          match evalFloatStage mx with
-          | .error m => .error m
-          | .ok b => .ok (some lit, b)
-        | [_, _, mn, mx] =>
-          match evalFloatStage mn with
-          | .error m => .error m
-          | .ok a =>
-            match evalFloatStage mx with
-            | .error m => .error m
-            | .ok b => .ok (a, b)
-        | _ => .ok (some lit, some lit)
-      match mm, args with
-      | .error m, _ => .error m
-      | .ok (some smin, some smax), a0 :: _ =>
-        ok (needFloat smin (needFloat smax (do
-          let v ← a0
-          match classifyFloat v with
-          | .invalid => pure ErrorNum
-          | _ => unmodelledStage "float")))
-      | .ok _, _ => errNum
-
-def table : Table := [
+/-- The integer, bucketing and `isint` builders of this file. -/
+def intTable : Table := [
   ("sumi", intHelper opSum), ("subi", intHelper opSub), ("multi", intHelper opMul),
   ("divi", intHelper opDiv), ("modi", intHelper opMod),
   ("maxi", intHelper opMax), ("mini", intHelper opMin),
-  ("isint", kfIsInt), ("isnum", kfIsNum),
-  ("bucket", kfBucket), ("bucketrange", kfBucketRange), ("clamp", kfClamp), ("expbucket", kfExpBucket),
-  ("lt", cmpHelper fun a b => a.lt b), ("gt", cmpHelper fun a b => b.lt a),
-  ("lte", cmpHelper fun a b => a.le b), ("gte", cmpHelper fun a b => b.le a),
-  ("sumf", floatHelper), ("subf", floatHelper), ("multf", floatHelper), ("divf", floatHelper),
-  ("pow", floatHelper),
-  ("ceil", unaryFloat), ("floor", unaryFloat), ("log10", unaryFloat), ("log2", unaryFloat),
-  ("ln", unaryFloat), ("sqrt", unaryFloat), ("round", kfRound),
-  ("hf", unaryFloat), ("percent", kfPercent)]
+  ("isint", kfIsInt),
+  ("bucket", kfBucket), ("bucketrange", kfBucketRange), ("clamp", kfClamp), ("expbucket", kfExpBucket)]
+
+def table : Table := intTable ++ Float.table
 
 end Rare.Expr.Funcs.Arith
